@@ -242,7 +242,7 @@ ENGINES = [
     {'name': 'pdugen', 'path': 'vf/pdugen.py', 'serves_properties': ['C01', 'C02', 'C04', 'C05', 'C12'],
      'kind_free_text': 'Hypothesis strategies for plain-data PDU specs; spec <-> library object bridge'},
     {'name': 'runner', 'path': 'vf/common.py', 'serves_properties': [],
-     'kind_free_text': 'case accounting, Hypothesis collect-then-shrink driver, evidence, replay, known findings'},
+     'kind_free_text': 'case accounting, Hypothesis collect-then-shrink driver, ambient conditions (DEBUG logging, library warnings as errors, a second pass under python -O), evidence, replay, known findings'},
 ]
 
 if __name__ == '__main__':
